@@ -16,6 +16,9 @@ type genCfg struct {
 	conflictChance int
 	icName         bool // workloads named ingress-controller / names that are suffixes of other names
 	twinPct        int  // probability (pct) that a selector rule gets a re-spelled twin with other ports
+	podPortsVary   bool // pods of one owner may declare one port name on different numbers
+	collidePct     int  // probability (pct) that a twin rule's selector has requirement strings that concatenate to the original's
+	repName        bool // a real pod may be named representative-pod
 	icNs           bool // the namespace ingress-controller-ns may hold objects
 	sameName       bool // several workloads (of different kinds) may share one name in a namespace
 }
@@ -277,7 +280,12 @@ func genNPRules(r *Rng, cfg *genCfg, egress bool) []NPRule {
 			var twin NPRule
 			for _, p := range rule.Peers {
 				q := NPPeer{}
-				if p.PodSel != nil {
+				if p.PodSel != nil && cfg.collidePct > 0 && r.P(cfg.collidePct) && len(p.PodSel.ML) == 1 && len(p.PodSel.ME) == 0 && len(p.PodSel.ML[0][0]) > 1 {
+					// key "app" = "a" ++ "pp": the requirement strings of {a Exists, pp=v} concatenate to "app=v"
+					k, v := p.PodSel.ML[0][0], p.PodSel.ML[0][1]
+					t := Sel{ML: []KV{{k[1:], v}}, ME: []Req{{Key: k[:1], Op: "Exists"}}}
+					q.PodSel = &t
+				} else if p.PodSel != nil {
 					if len(p.PodSel.ME) == 1 && r.P(60) {
 						// a second requirement on the same key (the original rule shares the pointer and gets it too)
 						p.PodSel.ME = append(p.PodSel.ME, Req{Key: p.PodSel.ME[0].Key, Op: "NotIn", Vals: []string{"zz"}})
@@ -393,7 +401,9 @@ func genWorld(r *Rng, cfg *genCfg) *World {
 	for i := 0; i < nWl; i++ {
 		ns := Pick(r, nss)
 		name := fmt.Sprintf("w%d", r.Intn(cfg.maxWl+1))
-		if cfg.sameName && r.P(12) && len(usedNames) > 0 {
+		if cfg.repName && r.P(8) {
+			name = "representative-pod" // the name of the pods the exposure analysis adds
+		} else if cfg.sameName && r.P(12) && len(usedNames) > 0 {
 			// a name that collides with the pods generated for a workload object: Pod web-1 next to Deployment web
 			var ks []string
 			for k := range usedNames {
@@ -451,7 +461,17 @@ func genWorld(r *Rng, cfg *genCfg) *World {
 				if owner == "" {
 					ok = ""
 				}
-				w.Objs = append(w.Objs, Obj{Kind: "pod", Pod: &PodObj{NS: ns, Name: pn, Labels: labels, Ports: ports, OwnerKind: ok, OwnerName: owner,
+				pports := ports
+				if cfg.podPortsVary && j > 0 && r.P(35) {
+					// the same port names on other numbers: which pod stands for the workload matters
+					pports = append([]CPort{}, ports...)
+					for k := range pports {
+						if pports[k].Name != "" {
+							pports[k].Port = Pick(r, portPool)
+						}
+					}
+				}
+				w.Objs = append(w.Objs, Obj{Kind: "pod", Pod: &PodObj{NS: ns, Name: pn, Labels: labels, Ports: pports, OwnerKind: ok, OwnerName: owner,
 					HostIP: Pick(r, []string{"192.168.49.2", "10.1.2.3", "172.18.0.4"})}})
 			}
 			continue
